@@ -89,6 +89,37 @@ def convolve_native(image2d, kernel2d):
     return out
 
 
+def convolve_native_shift(image2d, kernel2d):
+    """
+    Third statement of the same definition, usable on large frames: shift-and-add,
+    ``out = sum_{i,j} K[i, j] * shift(img, by (i - half_y, j - half_x))`` with zeros shifted in, i.e.
+    ``out[t] = sum_{i,j} K[i, j] * img[t + half - (i, j)]``.  numpy slices only (no scipy, no FFT): every output
+    pixel is the sum, in row-major kernel order, of exactly the products the definition names, so it is exactly
+    0 wherever every contributing image pixel is 0 and its rounding error at a pixel is bounded by
+    ``(kh*kw) * eps * local_magnitude`` at that pixel.
+    """
+    img = np.asarray(image2d, dtype=float)
+    H, W = img.shape
+    k, kh, kw = _check_kernel(kernel2d)
+    hy, hx = kh // 2, kw // 2
+    pad = np.zeros((H + 2 * hy, W + 2 * hx))
+    pad[hy:hy + H, hx:hx + W] = img
+    out = np.zeros((H, W))
+    for i in range(kh):
+        for j in range(kw):
+            out += k[i, j] * pad[2 * hy - i:2 * hy - i + H, 2 * hx - j:2 * hx - j + W]
+    return out
+
+
+def local_magnitude(image2d, kernel2d):
+    """
+    ``sum_{i,j} |K[i, j]| * |img[t + half - (i, j)]|`` at every pixel ``t``: the magnitude of the terms the
+    definition sums for that pixel.  Any floating-point evaluation of that sum (in any order) is within
+    ``n_terms * eps`` times this number of the exact value; it is 0 exactly where the pixel sees only zeros.
+    """
+    return convolve_native_shift(np.abs(np.asarray(image2d, dtype=float)), np.abs(np.asarray(kernel2d, dtype=float)))
+
+
 def reach_region(mask2d, kernel_shape):
     """
     Boolean ``H x W`` array, True at every *masked* pixel from which a kernel of shape
@@ -134,6 +165,13 @@ def self_test():
             a = (conv_matrix((H, W), k) @ img.ravel()).reshape(H, W)
             b = convolve_native(img, k)
             assert np.allclose(a, b, rtol=0, atol=1e-13), ((H, W), (kh, kw))
+            c = convolve_native_shift(img, k)
+            assert np.allclose(c, b, rtol=0, atol=1e-13), ((H, W), (kh, kw))
+            z = img.copy()
+            z[: H // 2 + 1, :] = 0.0  # pixels that see only zeros are exactly zero in the shift-and-add form
+            lm = local_magnitude(z, k)
+            assert np.all(convolve_native_shift(z, k)[lm == 0.0] == 0.0)
+            assert np.all(np.abs(convolve_native_shift(z, k) - convolve_native(z, k)) <= 1e-13 * lm)
     # hand example: delta at the centre reproduces the kernel itself (not its flip)
     k = np.arange(1.0, 10.0).reshape(3, 3)
     img = np.zeros((3, 3))
